@@ -389,6 +389,7 @@ func (c *channel) processCommand(ctx context.Context, sender RequestCommandSende
 		panic("process command: invalid command id")
 	}
 
+	verifHook("pc.enter", c.transport, reqCmd)
 	c.processingCmdsMu.Lock()
 
 	if _, ok := c.processingCmds[reqCmd.ID]; ok {
@@ -399,11 +400,14 @@ func (c *channel) processCommand(ctx context.Context, sender RequestCommandSende
 	respChan := make(chan *ResponseCommand, 1)
 	c.processingCmds[reqCmd.ID] = respChan
 	c.processingCmdsMu.Unlock()
+	verifHook("pc.registered", c.transport, reqCmd)
 
 	defer func() {
+		verifHook("pc.cleanup", c.transport, reqCmd)
 		c.processingCmdsMu.Lock()
 		delete(c.processingCmds, reqCmd.ID)
 		c.processingCmdsMu.Unlock()
+		verifHook("pc.cleaned", c.transport, reqCmd)
 	}()
 
 	err := sender.SendRequestCommand(ctx, reqCmd)
@@ -411,6 +415,7 @@ func (c *channel) processCommand(ctx context.Context, sender RequestCommandSende
 		return nil, err
 	}
 
+	verifHook("pc.wait", c.transport, reqCmd)
 	select {
 	case <-ctx.Done():
 		return nil, fmt.Errorf("process command: %w", ctx.Err())
@@ -424,6 +429,7 @@ func (c *channel) trySubmitCommandResult(respCmd *ResponseCommand) bool {
 		return false
 	}
 
+	verifHook("ts.enter", c.transport, respCmd)
 	c.processingCmdsMu.RLock()
 	respChan, ok := c.processingCmds[respCmd.ID]
 	c.processingCmdsMu.RUnlock()
@@ -432,11 +438,14 @@ func (c *channel) trySubmitCommandResult(respCmd *ResponseCommand) bool {
 		return false
 	}
 
+	verifHook("ts.looked", c.transport, respCmd)
 	c.processingCmdsMu.Lock()
 	delete(c.processingCmds, respCmd.ID)
 	c.processingCmdsMu.Unlock()
+	verifHook("ts.deleted", c.transport, respCmd)
 
 	respChan <- respCmd
+	verifHook("ts.replied", c.transport, respCmd)
 	return true
 }
 
